@@ -15,6 +15,7 @@ fn probe_pkp_build() {
     m.insert(id(1), vshare(a));
     let x = PublicKeyPackage::<Toy251>::new(m, vkey(k), None);
     assert!(x.verifying_shares().len() == 1);
+    core::mem::forget(x);
 }
 // @harness name=probe_pkp_ser props=CXX kind=bounded bound="probe" tier=thorough backs="probe" expect=pass
 #[kani::proof]
@@ -27,6 +28,7 @@ fn probe_pkp_ser() {
     let b = x.serialize().unwrap();
     assert!(b.len() == 9);
     assert!(b[7] == a.0);
+    core::mem::forget(x);
 }
 // @harness name=probe_pkp_de props=CXX kind=bounded bound="probe" tier=thorough backs="probe" expect=pass
 #[kani::proof]
@@ -35,7 +37,7 @@ fn probe_pkp_de() {
     let (a, k) = (any_e_nz(), any_e_nz());
     let buf = [H[0], H[1], H[2], H[3], H[4], 1, 1, a.0, k.0];
     match PublicKeyPackage::<Toy251>::deserialize(&buf) {
-        Ok(y) => { assert!(y.verifying_key().to_element() == k); }
+        Ok(y) => { assert!(y.verifying_key().to_element() == k); core::mem::forget(y); }
         Err(_) => { assert!(false, "de failed"); }
     }
 }
